@@ -2,6 +2,7 @@ package harness
 
 import (
 	"fmt"
+	"os"
 	"reflect"
 	"sync"
 	"testing"
@@ -494,4 +495,65 @@ func TestC09Regress(t *testing.T) {
 		mustUnmarshal(t, s, &c)
 		runC09(t, c)
 	}
+}
+
+// scaleN: how many sessions the scale tests keep waiting on one connection.
+func scaleN() int {
+	if os.Getenv("VERIF_TIER") == "thorough" {
+		return 70000
+	}
+	return 6000
+}
+
+// TestC09EnumScale: thousands of sessions multiplexed on one connection, all of them open at the same time
+// (every first packet is sent before any second one), each compared with what it gets alone.  The scripts
+// come from the ordinary generator, with a fixed generator seed.
+func TestC09EnumScale(t *testing.T) {
+	n := scaleN()
+	if n > 12000 {
+		n = 12000
+	}
+	c := rapid.Custom(func(rt *rapid.T) c09Case {
+		c := c09Case{World: cfggen.GenWorld(rt), Mode: "mux"}
+		for i := 0; i < n; i++ {
+			// three in four are logins that wait for a continuation
+			var sc c09Script
+			for k := 0; ; k++ {
+				sc = genC09Script(rt, c.World, uint32(0x1000+i))
+				if len(sc.Pkts) >= 2 || i%4 == 3 || k > 8 {
+					break
+				}
+			}
+			c.Scripts = append(c.Scripts, sc)
+			c.Assign = append(c.Assign, 0)
+		}
+		for round := 0; ; round++ {
+			any := false
+			for i, sc := range c.Scripts {
+				if round < len(sc.Pkts) {
+					c.Order = append(c.Order, i)
+					any = true
+				}
+			}
+			if !any {
+				break
+			}
+		}
+		return c
+	}).Example(7)
+	waiting := 0
+	for _, sc := range c.Scripts {
+		if len(sc.Pkts) >= 2 {
+			waiting++
+		}
+	}
+	env, err := startRef(c.World.Cfg, refOpts{keychain: refsrv.MapKeychain(c.World.KeychainBytes()), recover: true, quiet: true})
+	if err != nil || waiting < n/2 {
+		t.Fatalf("HARNESS-BUG: the fixed scale case is vacuous (config error %v, %d of %d scripts have a second packet)", err, waiting, n)
+	}
+	_ = env.stop()
+	overlap := runC09(t, c)
+	classifyC09(c, overlap)
+	ev.Class(fmt.Sprintf("scale:%d-sessions-on-one-connection", n))
+	t.Logf("scale: %d sessions, %d with more than one packet", n, waiting)
 }
